@@ -61,10 +61,14 @@ E2E_NOTE = (" Each run also re-establishes the pipeline prerequisites (hv/prereq
 register("C01", "proof",
          "Top-level postcondition of get_preparation_circuit transcribed from the property (each given signed Pauli lies with sign + in the signed "
          "stabilizer group of circuit|0>), decided by an independent signed-tableau oracle." + E2E_NOTE +
-         " The sign-repair step is qiskit object manipulation without a contract within reach of a symbolic proof, hence decided by exhaustive "
-         "evaluation for n<=4 and bounded for n=5,6.",
-         TRUST + " Q1-Q3 assumed for qiskit. n=5,6 sign step: bounded stand-in.",
-         "top-level contract vs independent tableau oracle, exhaustive over all stabilizer groups x sign vectors for n<=4 (GROUND); bounded n=5,6",
+         " The sign-repair step (rotate_stabilizer_into_state, synth_circuit_from_stabilizers) is interpreted by pyvc with SYMBOLIC sign bits against contract "
+         "stubs of the qiskit names it uses (Q1-Q3 through the oracle): the returned circuit is a fixed Clifford circuit plus X gates guarded by XOR-affine "
+         "conditions, and 'every requested signed Pauli is in the signed group of the result' is an XOR-affine identity decided by normal form - one run covers ALL "
+         "2^n sign vectors of a generator list (all groups n<=4 on every configuration; every class with seeded members for n=5,6). The stubs are compared with the "
+         "real qiskit run on every fourth case.",
+         TRUST + " Q1-Q3 are assumed contracts of qiskit, now explicit as stubs (validated against qiskit each run). For n=5,6 groups/generating sets are seeded members "
+         "of every class, not all groups.",
+         "pyvc with symbolic signs against dependency contract stubs (all sign vectors per run) + top-level contract vs tableau oracle, exhaustive groups n<=4",
          "DESIGN.md 5 (C01, C03)")
 
 register("C03", "proof",
